@@ -1055,10 +1055,8 @@ func (c *checker) floors() {
 	check(skipped*5 <= pairs, fmt.Sprintf("%d pairs skipped (not well-formed / nested groups) against %d judged", skipped, pairs))
 	check(d["case:no-plan"]*10 <= cases, fmt.Sprintf("%d of %d cases ended without a plan", d["case:no-plan"], cases))
 	check(d["decode-check:ok"]+d["decode-check-skipped:merged-target-of-a-replay"] >= pairs, "the decoding of fewer configurations than judged pairs was checked")
-	if c.ctx == nil || !c.isReplay {
-		check(d["decode-check:merged-target-of-several-vsys"] >= 3+cases/60,
-			fmt.Sprintf("a target merged from main, IPv6 and raw file with two or more vsys was checked only %d times in %d cases", d["decode-check:merged-target-of-several-vsys"], cases))
-	}
+	check(d["decode-check:merged-target-of-several-vsys"] >= 3+cases/60,
+		fmt.Sprintf("a target merged from main, IPv6 and raw file with two or more vsys was checked only %d times in %d cases", d["decode-check:merged-target-of-several-vsys"], cases))
 	check(d["oracle-skipped:no-second-plan"]*50 <= d["oracle:converged"]+50, fmt.Sprintf("%d second plans missing", d["oracle-skipped:no-second-plan"]))
 	check(d["oracle:reached-state-wellformed"]*10 >= pairs*9, "well-formedness of the reached state judged for too few pairs")
 	if cuts := d["resume:cuts"]; cuts > 0 {
